@@ -302,6 +302,9 @@ def execute(case, chooser):
             pm[i, :, : a.shape[1]] = a
             pv[i, :, : b.shape[1]] = b
         out = G.dbal_fast_gauss_scoring_vectorized(pm, pv, D, rng, max_combos=case["max_combos"])
+        if case.get("again"):
+            # the caller keeps its padded arrays and scores them once more (same array objects): the second answer is judged
+            out = G.dbal_fast_gauss_scoring_vectorized(pm, pv, D, ScriptedGenerator(Chooser()), max_combos=case["max_combos"])
         return out, True
     if entry == "scorer":
         sizes = [len(pm[0]) for pm in case["means"]]
@@ -531,6 +534,14 @@ def run_item(item, col, tier):
             col.states += 1
         return
     if kind == "scorer-reuse":
+        # the dense entry point called twice on the SAME padded arrays (every multiset of the tier, ragged ones matter)
+        for fam in ("graded", "extreme"):
+            for sizes in multisets(tp["sizes"], tp["max_plates"]) + [[60, 2]]:
+                base = Base(item["n"], fam, sizes)
+                case = base.case("kernel")
+                case["again"] = True
+                check_case(case, col, Chooser(), base.expected("kernel"), _dims(base, case["order"]) | {"same-arrays-scored-twice"})
+                col.states += 1
         # one scorer object, two calls with different distance matrices of the same size: the second call is judged
         for fam in ("graded", "onepair", "extreme"):
             for sizes in ([2], [1, 3], [2, 2, 1]):
